@@ -11,6 +11,7 @@ import (
 	"os"
 	"os/exec"
 	"path/filepath"
+	"regexp"
 	"runtime"
 	"runtime/debug"
 	"sort"
@@ -75,6 +76,8 @@ func main() {
 		os.Exit(cmdGen(os.Args[2:]))
 	case "hashes":
 		os.Exit(cmdHashes(os.Args[2:]))
+	case "merge-evidence":
+		os.Exit(cmdMergeEvidence(os.Args[2:]))
 	case "list":
 		fmt.Println(strings.Join(checkIDs(), " "))
 		os.Exit(0)
@@ -265,6 +268,7 @@ func cmdExec1(args []string) int {
 // check is one that owns termination (C10); otherwise as machinery trouble.
 func execFresh(id string, sc *Scenario, limit time.Duration) (*Violation, string) {
 	cmd := exec.Command(os.Args[0], "exec1", id)
+	cmd.Env = append(os.Environ(), "GORACE=halt_on_error=1 exitcode=66", "VERIF_TRACE_IDX=")
 	cmd.Stdin = bytes.NewReader(sc.JSON())
 	var out, errb bytes.Buffer
 	cmd.Stdout = &out
@@ -280,6 +284,9 @@ func execFresh(id string, sc *Scenario, limit time.Duration) (*Violation, string
 		cmd.Process.Kill()
 		<-done
 		return &Violation{Class: "hang", Task: -1, Op: -1, Sig: "hang", Detail: fmt.Sprintf("no result within %v", limit)}, ""
+	}
+	if _, report, ok := raceReport(errb.String()); ok {
+		return &Violation{Class: "data-race", Task: -1, Op: -1, Sig: "C18/data-race", Detail: report}, ""
 	}
 	var r exec1Result
 	if err := json.Unmarshal(out.Bytes(), &r); err != nil {
@@ -330,6 +337,7 @@ func cmdRun(args []string) int {
 	runsOverride := fs.Int("runs", 0, "")
 	secsOverride := fs.Int("secs", 0, "")
 	noEvidence := fs.Bool("no-evidence", false, "")
+	split := fs.Int("split", 1, "run each worker slot's share in this many successive fresh processes")
 	id := args[0]
 	fs.Parse(args[1:])
 	c := getCheck(id)
@@ -352,27 +360,48 @@ func cmdRun(args []string) int {
 	if *tier == "thorough" {
 		hangSecs = 180
 	}
-	results := make([]workerResult, *workers)
-	errs := make([]string, *workers)
+	if *split < 1 {
+		*split = 1
+	}
+	virt := *workers * *split
+	results := make([]workerResult, virt)
+	errs := make([]string, virt)
 	var wg sync.WaitGroup
-	for w := 0; w < *workers; w++ {
+	slots := make(chan struct{}, *workers)
+	perSecs := secs / *split
+	if perSecs < 2 {
+		perSecs = 2
+	}
+	for w := 0; w < virt; w++ {
 		wg.Add(1)
 		go func(w int) {
 			defer wg.Done()
+			slots <- struct{}{}
+			defer func() { <-slots }()
 			cmd := exec.Command(os.Args[0], "worker", id, "-seed", strconv.FormatUint(seed, 10), "-tier", *tier,
-				"-w", strconv.Itoa(w), "-of", strconv.Itoa(*workers), "-runs", strconv.Itoa(runs), "-secs", strconv.Itoa(secs),
+				"-w", strconv.Itoa(w), "-of", strconv.Itoa(virt), "-runs", strconv.Itoa(runs), "-secs", strconv.Itoa(perSecs),
 				"-hang", strconv.Itoa(hangSecs), "-known", strings.Join(sigs, ","))
 			var out, errb bytes.Buffer
 			cmd.Stdout = &out
 			cmd.Stderr = &errb
+			cmd.Env = append(os.Environ(), "GOMAXPROCS=")
+			if id == "C18B" {
+				cmd.Env = append(cmd.Env, "VERIF_TRACE_IDX=1", "GORACE=halt_on_error=1 exitcode=66")
+			}
 			err := cmd.Run()
 			line := bytes.TrimSpace(out.Bytes())
 			if i := bytes.LastIndexByte(line, '\n'); i >= 0 {
 				line = line[i+1:]
 			}
 			if jerr := json.Unmarshal(line, &results[w]); jerr != nil {
-				errs[w] = fmt.Sprintf("worker %d: no result (%v): %s", w, err, clip(errb.String(), 2000))
-				results[w].VIndex = -1
+				results[w] = workerResult{VIndex: -1}
+				if idx, report, ok := raceReport(errb.String()); ok {
+					// the race detector halted the worker: the scenario in flight is the finding
+					results[w].Violation = &Violation{Class: "data-race", Task: -1, Op: -1, Sig: "C18/data-race", Detail: report}
+					results[w].VIndex = idx
+				} else {
+					errs[w] = fmt.Sprintf("worker %d: no result (%v): %s", w, err, clip(errb.String(), 2000))
+				}
 			}
 		}(w)
 	}
@@ -459,6 +488,34 @@ func cmdRun(args []string) int {
 	return 0
 }
 
+// propName maps a check id to the property it belongs to (C18B is stage B of C18).
+func propName(id string) string {
+	if id == "C18B" {
+		return "C18"
+	}
+	return id
+}
+
+var idxRe = regexp.MustCompile(`@idx ([0-9]+)`)
+
+// raceReport recognises a race-detector report in a process's stderr and
+// returns the index of the scenario that was in flight.
+func raceReport(stderr string) (idx int, report string, ok bool) {
+	i := strings.Index(stderr, "WARNING: DATA RACE")
+	if i < 0 {
+		return 0, "", false
+	}
+	idx = -1
+	if m := idxRe.FindAllStringSubmatch(stderr[:i], -1); len(m) > 0 {
+		idx, _ = strconv.Atoi(m[len(m)-1][1])
+	}
+	lines := strings.Split(stderr[i:], "\n")
+	if len(lines) > 40 {
+		lines = lines[:40]
+	}
+	return idx, strings.Join(lines, "\n"), true
+}
+
 func fmtCounts(m map[string]int) string {
 	var parts []string
 	for _, k := range sortedKeys(m) {
@@ -515,6 +572,7 @@ func reportViolation(c Check, sc *Scenario, v *Violation, hang bool, tier string
 	dir := filepath.Join(outDir(), "replays")
 	os.MkdirAll(dir, 0o755)
 	path := filepath.Join(dir, fmt.Sprintf("%s-%d.json", id, sc.Seed))
+	id = propName(id)
 	if err := os.WriteFile(path, min.JSON(), 0o644); err != nil {
 		fmt.Println("MACHINERY: cannot write replay:", err)
 		return 2
@@ -538,10 +596,17 @@ func cmdReplay(args []string) int {
 		return 2
 	}
 	v, harness := execFresh(c.ID(), sc, execLimit(id))
+	if sc.Expect != nil && sc.Expect.Class == "data-race" {
+		// stage B is not schedule-deterministic: the report needs both accesses to happen, try again
+		for i := 0; i < 20 && v == nil && harness == ""; i++ {
+			v, harness = execFresh(c.ID(), sc, execLimit(id))
+		}
+	}
 	if harness != "" {
 		fmt.Println("MACHINERY:", harness)
 		return 2
 	}
+	id = propName(id)
 	if v == nil {
 		fmt.Printf("replay %s: no violation on this tree\n", args[1])
 		return 0
@@ -660,3 +725,60 @@ func writeEvidence(c Check, tier string, seed uint64, agg workerResult, distinct
 }
 
 func sortInts(a []int) { sort.Ints(a) }
+
+// cmdMergeEvidence folds stage B's evidence file into stage A's (C18).
+func cmdMergeEvidence(args []string) int {
+	dir := filepath.Join(outDir(), "evidence")
+	read := func(name string) map[string]interface{} {
+		b, err := os.ReadFile(filepath.Join(dir, name+".json"))
+		if err != nil {
+			return nil
+		}
+		var m map[string]interface{}
+		dec := json.NewDecoder(bytes.NewReader(b))
+		dec.UseNumber()
+		if dec.Decode(&m) != nil {
+			return nil
+		}
+		return m
+	}
+	num := func(v interface{}) int64 {
+		if n, ok := v.(json.Number); ok {
+			if i, err := n.Int64(); err == nil {
+				return i
+			}
+			f, _ := n.Float64()
+			return int64(f)
+		}
+		return 0
+	}
+	fnum := func(v interface{}) float64 {
+		if n, ok := v.(json.Number); ok {
+			f, _ := n.Float64()
+			return f
+		}
+		return 0
+	}
+	a, b := read(args[0]), read(args[1])
+	if a == nil || b == nil {
+		fmt.Fprintln(os.Stderr, "merge-evidence: missing evidence file")
+		return 2
+	}
+	ca, _ := a["coverage"].(map[string]interface{})
+	cb, _ := b["coverage"].(map[string]interface{})
+	ca["stage_A_deterministic_interleaving"] = map[string]interface{}{"evaluations": ca["evaluations"], "distinct_nontrivial": ca["distinct_nontrivial"], "rule": ca["rule"]}
+	ca["stage_B_free_running_race_detector"] = cb
+	ca["rule"] = fmt.Sprint(ca["rule"]) + " || " + fmt.Sprint(cb["rule"])
+	ca["evaluations"] = num(ca["evaluations"]) + num(cb["evaluations"])
+	a["wall_s"] = fnum(a["wall_s"]) + fnum(b["wall_s"])
+	a["violations"] = num(a["violations"]) + num(b["violations"])
+	as, _ := a["assumptions"].([]interface{})
+	bs, _ := b["assumptions"].([]interface{})
+	a["assumptions"] = append(as, bs...)
+	out, _ := json.MarshalIndent(a, "", " ")
+	if err := os.WriteFile(filepath.Join(dir, args[0]+".json"), out, 0o644); err != nil {
+		return 2
+	}
+	os.Remove(filepath.Join(dir, args[1]+".json"))
+	return 0
+}
